@@ -30,9 +30,9 @@ ASSUMPTIONS = [
     "relative, view Jacobian 2e-4 of the largest entry",
 ]
 REQUIRED_CLASSES = ["lstsq:tall", "lstsq:wide", "lstsq:square", "lstsq:rank-deficient", "lstsq:dropped-by-rcond",
-                    "lstsq:dropped-by-cutoff", "step:square", "step:tall", "step:wide", "step:broyden",
-                    "views:scalar+rescaled", "views:vector+native", "scaling"]
-RCONDS = [None, 1e-10, 1e-5, 1e-2, 0.5]
+                    "lstsq:dropped-by-cutoff", "lstsq:rcond=0", "lstsq:settings-at-both-places", "step:square", "step:tall", "step:wide", "step:broyden",
+                    "views:scalar+rescaled", "views:vector+native", "views:reused-after-change", "scaling"]
+RCONDS = [None, 1e-10, 1e-5, 1e-2, 0.5, 0.0]      # 0.0 = keep every non-zero singular value
 
 
 # ------------------------------------------------------------------ (a) lstsq
@@ -55,7 +55,7 @@ def lstsq_cases(draw):
     return {"kind": "lstsq", "m": m, "n": n, "s": s, "seed": draw(st.integers(0, 2 ** 30)),
             "scale": draw(st.sampled_from([1.0, 1.0, 1e-6, 1e6, 3.7])),
             "rcond": draw(st.sampled_from(RCONDS)), "cutoff": draw(st.sampled_from([None, None] + list(range(1, k + 1)))),
-            "where": draw(st.sampled_from(["ctor", "call"])),
+            "where": draw(st.sampled_from(["ctor", "call", "both", "both"])),
             "b_kind": draw(st.sampled_from(["random", "in-range", "in-null-left"]))}
 
 
@@ -68,6 +68,12 @@ def exec_lstsq(ctx, c):
     V, _ = np.linalg.qr(rs.normal(size=(n, n)))
     U, V = U[:, :k], V[:, :k]
     raw = np.array(c["s"], dtype=float) * c["scale"]
+    if c["rcond"] == 0.0:
+        # rcond = 0 keeps everything that is not exactly zero; a numerically-zero singular value of a constructed
+        # rank-deficient matrix comes back as ~1e-17, so this setting is only meaningful on full-rank spectra
+        for i in range(1, len(raw)):
+            if raw[i] == 0.0:
+                raw[i] = raw[i - 1] / 10.0
     rcond_eff = 1e-14 if c["rcond"] is None else c["rcond"]
     thr = rcond_eff * raw[0]
     # descending, pairwise separated by >= 1.5, and none within a factor 2 of the rcond threshold
@@ -104,6 +110,10 @@ def exec_lstsq(ctx, c):
         cls.append("lstsq:dropped-by-rcond")
     if cutoff is not None and cutoff < npos:
         cls.append("lstsq:dropped-by-cutoff")
+    if c["rcond"] == 0.0:
+        cls.append("lstsq:rcond=0")
+    if c["where"] == "both":
+        cls.append("lstsq:settings-at-both-places")
     nt = m != n or npos < k or len(keep) < npos
     rendered = {"shape": [m, n], "singular_values": [float(x) for x in s], "rcond": c["rcond"], "cutoff": cutoff,
                 "given_to": c["where"], "rhs": c["b_kind"], "kept": keep}
@@ -116,8 +126,14 @@ def exec_lstsq(ctx, c):
             if cutoff is not None:
                 kw["sing_val_cutoff"] = cutoff
             got = SVD(M, **kw).lstsq(b)
-        else:
+        elif c["where"] == "call":
             got = SVD(M).lstsq(b, rcond=c["rcond"], sing_val_cutoff=cutoff)
+        else:
+            # different settings at construction: the arguments of the call take precedence (None = constructor's)
+            ctor_rcond = 1e-2 if c["rcond"] is not None else 1e-14
+            got = SVD(M, rcond=ctor_rcond if c["rcond"] is not None else 1e-14,
+                      sing_val_cutoff=None if cutoff is not None else None).lstsq(
+                b, rcond=c["rcond"], sing_val_cutoff=cutoff)
     except Exception as e:
         return Failure(f"C16:lstsq-raises:{type(e).__name__}", dict(rendered, raised=repr(e)[:200]))
     got = np.asarray(got, dtype=float)
@@ -295,8 +311,57 @@ def exec_view(ctx, spec):
                 break
         if fail:
             break
+    if fail is None:
+        fail = view_reuse(b, spec, rendered, classes)
     ctx.stats.case(rendered, asym or wts, classes)
     return fail
+
+
+def view_reuse(b, spec, rendered, classes):
+    """one view object used before AND after its limits / weight / rescale interval change: value and Jacobian must
+    follow the live settings (a view is a thin wrapper, it must not keep derived quantities from an earlier call)"""
+    n = spec["n"]
+    tgt = np.array(spec["targets"])
+    wt = np.array(spec["tweights"])
+    classes.append("views:reused-after-change")
+    for scalar in (False, True):
+        view = b.opt.get_merit_function(return_scalar=scalar, rescale_x=tuple(spec["rescale"]), check_limits=False)
+        orig = [(np.array(v.limits, dtype=float).copy(), v.weight) for v in b.opt.vary]
+        try:
+            for stage in ("initial", "limits-changed", "weight-changed", "interval-changed"):
+                if stage == "limits-changed":
+                    for v in b.opt.vary:
+                        v.limits = np.array([v.limits[0] - 0.5, v.limits[1] + 1.5])
+                elif stage == "weight-changed":
+                    b.opt.vary[0].weight = b.opt.vary[0].weight * 2.0
+                elif stage == "interval-changed":
+                    view.rescale_x = (view.rescale_x[0] - 1.0, view.rescale_x[1] + 2.0)
+                wv = np.array([v.weight for v in b.opt.vary])
+                lims = np.array([v.limits for v in b.opt.vary], dtype=float)
+                xlo, xhi = lims[:, 0] / wv, lims[:, 1] / wv
+                r0, r1 = view.rescale_x
+                x_native = xlo + np.array(spec["point"]) * (xhi - xlo)
+                xs = r0 + (x_native - xlo) * (r1 - r0) / (xhi - xlo)
+                dnat = (xhi - xlo) / (r1 - r0)
+                e0 = (b.f(x_native * wv) - tgt) * wt
+                J = (wt[:, None] * b.jac(x_native * wv) * wv[None, :]) * dnat[None, :]
+                want_val = float(np.sum(e0 * e0)) if scalar else e0
+                want_jac = 2 * e0 @ J if scalar else J
+                val = view(xs)
+                jac = np.asarray(view.get_jacobian(xs), dtype=float)
+                tol = 2e-4 * (float(np.max(np.abs(want_jac))) + 1.0)
+                if not np.allclose(val, want_val, rtol=1e-10, atol=1e-12):
+                    return Failure("C16:reused-view-value-differs", dict(rendered, stage=stage, scalar=scalar))
+                if jac.shape != np.asarray(want_jac).shape or np.any(np.abs(jac - want_jac) > tol):
+                    return Failure("C16:reused-view-jacobian-differs",
+                                   dict(rendered, stage=stage, scalar=scalar, got=jac.tolist(),
+                                        expected=np.asarray(want_jac).tolist()))
+        except Exception as e:
+            return Failure(f"C16:reused-view-raises:{type(e).__name__}", dict(rendered, raised=repr(e)[:200]))
+        finally:
+            for v, (lm, w) in zip(b.opt.vary, orig):
+                v.limits, v.weight = lm, w
+    return None
 
 
 def run(ctx):
